@@ -18,7 +18,10 @@ R5  a name that is not defined yet never fails the decoration: the scope's __mis
 R6  every route that can be handed a string resolves it before anything else looks at the hint, and evaluates it inside a
     handler that converts whatever the evaluation raises;
 R7  the proxy's verdict is the referent's verdict: isinstance() against a proxy answers what isinstance() / is_bearable()
-    answer for the referent and the very object, issubclass() likewise; the referent-type memo does not remember failures.
+    answer for the referent and the very object, issubclass() likewise; the referent-type memo does not remember failures;
+R8  proxies keep what they need to be resolved later: the proxy factories store the name, the module, the message prefix
+    and the enclosing callable they are given, and a proxy derived from a proxy by subscription ('Box[int]') inherits all
+    four and records its arguments (interpreted end to end, only the class constructor stubbed).
 """
 from __future__ import annotations
 
@@ -56,6 +59,7 @@ def run(ctx):
     _missing(ctx)
     _routes(ctx)
     _proxy_verdict(ctx)
+    _derived_proxies(ctx)
 
 
 # ----------------------------------------------------------------------------------------------------------------- R1
@@ -352,8 +356,8 @@ def _scope_precedence(ctx):
     ctx.rule('C07.R4', 'the scope a string annotation is evaluated in, decided by interpreting make_scope_forward_decor_curr over '
              '{module-level function, function nested in a running function, method of a class (at module level / nested in a '
              'running function), nested function whose defining frame cannot be found}: the name X bound at every level '
-             'resolves as Python resolves it for an evaluated annotation — class body before enclosing-function locals before '
-             'module globals before builtins; globals and builtins stay visible; the root and the current class of the class '
+             'resolves as Python resolves it for an evaluated annotation — class body (of the innermost class of the stack, in which the method is defined) before enclosing-function '
+             'locals before module globals before builtins; globals and builtins stay visible; the root and the current class of the class '
              'stack are visible by name; the scope is built once per decorated callable and the enclosing callable is '
              'remembered for names defined later')
     with _Engine(ctx) as E:
@@ -407,7 +411,9 @@ def _scope_precedence(ctx):
             E.stub(env, 'get_func_globals', lambda *a, **k: {'X': 'global-X', 'G': 'global-G'}, ctx)
             E.stub(env, 'get_object_module_name', lambda *a, **k: 'mod', ctx)
             E.stub(env, 'find_func_locals_frame', find_locals, ctx)
-            E.stub(env, 'get_type_locals', lambda c, *a, **k: {'X': 'class-X', 'C': 'class-C'}, ctx)
+            # the body of the class a method is defined in — the *current* (innermost) class of the stack — is what its annotations see
+            E.stub(env, 'get_type_locals', lambda c=None, *a, **k: (
+                {'X': 'class-X', 'C': 'class-C'} if (c if c is not None else k.get('cls')) is cur else {'X': 'outer-class-X', 'O': 'outer-class-O'}), ctx)
             E.stub(env, 'get_func_codeobject', lambda f, *a, **k: ('CODE-OF', f), ctx)
             E.stub(env, 'get_frame_parent_object_or_none', lambda *a, **k: None, ctx)
             E.stub(env, 'resolve_func_scope_pep695', lambda *a, **k: None, ctx)
@@ -746,3 +752,80 @@ def _proxy_verdict(ctx):
         finally:
             F.builtin_hook = saved_b
     ctx.floor('C07.R7', n, 11, 'verdict cases')
+
+
+# ----------------------------------------------------------------------------------------------------------------- R8
+def _derived_proxies(ctx):
+    from sa.fold import AObj, DelegatingAObj, FuncVal, _Abort, _Raise, _call_function
+    PROXY = 'beartype._check.forward.reference.fwdrefproxy'
+    ABC = 'beartype._check.forward.reference._cls.fwdrefabc'
+    pm, am = ctx.repo.mod(PROXY), ctx.repo.mod(ABC)
+    ctx.rule('C07.R8', 'a forward-reference proxy keeps what it needs to be resolved when the name is defined: interpreted end to end '
+             '(only the construction of the proxy class itself stubbed), the proxy the scope makes for an undefined name carries '
+             'the name, the module, the message prefix and the enclosing callable it was made for; a proxy derived from it by '
+             'subscription (the annotation \'Box[int]\' with Box defined later in the same function) carries the same four and '
+             'its arguments — otherwise the derived proxy is looked up in the wrong place and never resolves')
+    with _Engine(ctx) as E:
+        F = E.F
+        penv = F.module_env(PROXY)
+
+        class _Made(AObj):
+            """The class object make_type() would return: attribute stores are recorded."""
+            _track_attribute_stores = True
+
+            def __init__(self, kw):
+                self.made_with = kw
+
+        class _Weak(AObj):
+            def __repr__(self):
+                return '<weak reference to the enclosing callable>'
+        weak = _Weak()
+        E.stub(penv, 'make_type', lambda *a, **k: _Made(k), ctx)
+        E.stub(penv, 'die_unless_identifier', lambda *a, **k: None, ctx)
+        saved = F.isinstance_hook
+        F.isinstance_hook = lambda o, c: True if isinstance(o, _Weak) else (saved(o, c) if saved else None)
+        n = 0
+
+        def attrs(o):
+            return {k: getattr(o, k, '<unset>') for k in ('__scope_name_beartype__', '__hint_name_beartype__', '__exception_prefix_beartype__',
+                                                        '__func_local_parent_codeobj_weakref_beartype__')}
+        try:
+            fn = penv.get('proxy_hint_pep484_ref_str_subbable')
+            ctx.require(isinstance(fn, FuncVal), 'anchor vanished: proxy_hint_pep484_ref_str_subbable')
+            out = None
+            try:
+                out = _call_function(F, fn, [], {'scope_name': 'mod', 'hint_name': 'Box', 'func_local_parent_codeobj_weakref': weak,
+                                                 'exception_prefix': 'PREFIX '}, 1)
+            except (_Raise, _Abort) as ex:
+                ctx.require(False, f'cannot interpret {fn.qual}: {ex}')
+            want = {'__scope_name_beartype__': 'mod', '__hint_name_beartype__': 'Box', '__exception_prefix_beartype__': 'PREFIX ',
+                    '__func_local_parent_codeobj_weakref_beartype__': weak}
+            n += 1
+            ctx.ob('C07.R8', 'proxy:made-for-undefined-name', pm.where(fn.node), 'the proxy carries name, module, prefix and enclosing callable',
+                   isinstance(out, _Made) and attrs(out) == want, f'proxy attributes {attrs(out) if isinstance(out, _Made) else out!r}')
+            # subscription of that proxy
+            cls = F.const(ABC, 'BeartypeForwardRefSubbableABC')
+            cg = cls.find('__class_getitem__')
+            ctx.require(isinstance(cg, FuncVal), 'anchor vanished: BeartypeForwardRefSubbableABC.__class_getitem__')
+
+            class _Parent(DelegatingAObj):
+                _real_class = cls
+
+                def __init__(self):
+                    self.__dict__.update(want)
+            sub = None
+            try:
+                sub = _call_function(F, cg, [_Parent(), 'ARG'], {}, 1)
+            except (_Raise, _Abort) as ex:
+                ctx.require(False, f'cannot interpret {cg.qual}: {ex}')
+            n += 1
+            ctx.ob('C07.R8', 'proxy:derived-by-subscription:inherits', am.where(cg.node),
+                   'the subscripted proxy refers to the same name, module, prefix and enclosing callable', isinstance(sub, _Made) and attrs(sub) == want,
+                   f'derived proxy attributes {attrs(sub) if isinstance(sub, _Made) else sub!r}')
+            n += 1
+            ctx.ob('C07.R8', 'proxy:derived-by-subscription:arguments', am.where(cg.node), 'the subscripted proxy records its arguments',
+                   isinstance(sub, _Made) and getattr(sub, '__args_beartype__', None) == ('ARG',),
+                   f'__args_beartype__ = {getattr(sub, "__args_beartype__", "<unset>")!r}')
+        finally:
+            F.isinstance_hook = saved
+    ctx.floor('C07.R8', n, 3, 'proxy constructions')
